@@ -43,6 +43,12 @@ class AnchorMoved(Exception):
   """A loop contract's anchor no longer matches the source: UNDECIDED, not a violation."""
 
 
+class ContractMismatch(Exception):
+  """The function under contract read an attribute that the sidecar harness's pre-state object
+  does not define (typically state added by a change to the code) and the resulting AttributeError
+  left the function: the contract does not describe this code -- UNDECIDED, never a violation."""
+
+
 class LoopSpec(object):
   """Contract of one loop, attached by (function, ordinal) plus a fingerprint of the header.
 
@@ -299,6 +305,21 @@ class Interp(object):
     self.depth += 1
     self.call_stack.append(fi.qualname)
     try:
+      if top:
+        try:
+          return self._run_body(fi, frame)
+        except PyRaise as e:
+          miss = getattr(e.exc, 'harness_miss', None)
+          if miss:
+            raise ContractMismatch("%s reads %s, which the contract's pre-state does not define" % (fi.qualname, miss))
+          raise
+      return self._run_body(fi, frame)
+    finally:
+      self.depth -= 1
+      self.call_stack.pop()
+
+  def _run_body(self, fi, frame):
+    if True:
       if fi.is_generator:
         from .models import PyList
         mk = self.ext.get(('gen_out', fi.qualname))
@@ -313,9 +334,6 @@ class Interp(object):
       except _Return as r:
         return r.value
       return None
-    finally:
-      self.depth -= 1
-      self.call_stack.pop()
 
   def call_lambda(self, clo, args, kwargs):
     frame = Frame(clo.frame.func, clo.frame.env, parent=clo.frame)
@@ -442,7 +460,11 @@ class Interp(object):
         return obj.base.py_getattr(self, name)
       if name == '__class__':
         return RepoClass(obj.cls)
-      raise PyRaise(ExcVal('AttributeError', ("%r object has no attribute %r" % (obj.name, name),)))
+      exc = ExcVal('AttributeError', ("%r object has no attribute %r" % (obj.name, name),))
+      if obj.birth == 0:
+        # an object the harness built (not one the code under contract constructed itself)
+        exc.harness_miss = "%s.%s" % (obj.name, name)
+      raise PyRaise(exc)
     if isinstance(obj, Model):
       if obj.shared:
         self.yield_point(obj)
